@@ -413,6 +413,25 @@ pub fn run_batch<S: Scenario>(s: &S, cfg: &BatchCfg) -> BatchOut {
                 ));
                 replay_paths.push(path.display().to_string());
             }
+            Ok(other) if s.nondeterminism_is_violation() => {
+                // observed in this process, not shown again by 12 fresh processes (possibly
+                // after shrinking changed addresses / allocation patterns): the behaviour
+                // depends on state outside (case, decisions), which is what this property forbids
+                lines.push(format!(
+                    "VIOLATION property={} replay={}",
+                    s.property(),
+                    path.display()
+                ));
+                lines.push(format!(
+                    "  oracle=determinism class=not-reproducible key=determinism/not-reproducible :: observed {}/{} ({}) in-process, but {} fresh processes replaying the same case and decisions showed {:?}: the answer depends on state outside the call sequence (addresses, hash order, allocator), which itself violates re-execution equality",
+                    viol.oracle,
+                    viol.class,
+                    viol.message.chars().take(200).collect::<String>(),
+                    tries,
+                    other.map(|v| format!("{}/{}", v.oracle, v.class))
+                ));
+                replay_paths.push(path.display().to_string());
+            }
             Ok(other) => harness_errors.push(format!(
                 "replay of {} in a fresh process did not reproduce {}/{} (got {:?})",
                 path.display(),
